@@ -11,6 +11,7 @@ Part 2: theorems about the hand-written model (`Units/Basic.lean`) that the
 import RsassModel.Units.Spec
 import RsassModel.Units.Lemmas
 import RsassModel.Units.LemmasField
+import RsassModel.Units.LemmasNormal
 import RsassModel.Generated.UnitTable
 namespace C11
 open Units UNum
@@ -327,6 +328,54 @@ theorem div_exponents (q : UQuirks) (d : Dim) (a b : Numeric α) :
 theorem simplify_exponents (q : UQuirks) (d : Dim) (s : UnitSet) :
     expo q d (simplify (α := α) q s).1 = expo q d s :=
   simplify_expo q d s
+
+/-! ### normal form: convertible units cancel (and merge) -/
+
+/-- `simplify_normal_form`: in the set `simplify` returns, every exponent is non-zero and no
+two units are convertible with each other (so no convertible pair is left on opposite sides
+of the fraction bar, nor on the same side) — for every flag setting and number carrier. -/
+theorem simplify_normal_form (q : UQuirks) (s : UnitSet) :
+    (∀ x ∈ (simplify (α := α) q s).1, x.2 ≠ 0)
+      ∧ (simplify (α := α) q s).1.Pairwise (fun a b => conv q a.1 b.1 = false) := by
+  have hc := simpLoop_clean (α := α) q s.length s (ofNat 1) (Nat.le_refl _)
+  constructor
+  · intro x hx
+    simp only [simplify, dropZero, List.mem_filter, decide_eq_true_eq] at hx
+    exact hx.2
+  · simp only [simplify, dropZero]
+    have hf := List.Pairwise.filter (fun x : U × Int => decide (x.2 ≠ 0)) hc
+    refine List.Pairwise.imp_of_mem ?_ hf
+    intro a b ha hb hab
+    simp only [List.mem_filter, decide_eq_true_eq] at ha hb
+    rw [conv_symm]
+    exact hab ha.2 hb.2
+
+/-- in particular no conversion factor exists between two units of a simplified set -/
+theorem simplify_no_scale (q : UQuirks) (s : UnitSet) :
+    (simplify (α := α) q s).1.Pairwise (fun a b => scaleTo (α := α) q a.1 b.1 = none) := by
+  refine List.Pairwise.imp ?_ (simplify_normal_form (α := α) q s).2
+  intro a b h
+  have := scaleTo_isSome (α := α) q a.1 b.1
+  rw [h] at this
+  cases hs : scaleTo (α := α) q a.1 b.1 with
+  | none => rfl
+  | some r => rw [hs] at this; cases this
+
+/-- the results of `*` and `math.div` are simplified: their unit sets are in normal form -/
+theorem mul_result_simplified (q : UQuirks) (a b : Numeric α) :
+    (∀ x ∈ (numMul q a b).u, x.2 ≠ 0)
+      ∧ (numMul q a b).u.Pairwise (fun x y => conv q x.1 y.1 = false) :=
+  simplify_normal_form q (setMul a.u b.u)
+
+theorem div_result_simplified (q : UQuirks) (a b : Numeric α) :
+    (∀ x ∈ (numDiv q a b).u, x.2 ≠ 0)
+      ∧ (numDiv q a b).u.Pairwise (fun x y => conv q x.1 y.1 = false) :=
+  simplify_normal_form q (setDiv a.u b.u)
+
+/-- `1px * 1in` and `math.div(1px, 1in)`: the convertible pair is merged / cancelled -/
+example : (simplify (α := α) uSpec [(.known .px, 1), (.known .inch, 1)]).1 = [(.known .inch, 2)] := rfl
+example : (simplify (α := α) uSpec [(.known .px, 1), (.known .inch, -1)]).1 = [] := rfl
+example : (simplify (α := α) uSpec [(.known .px, 1), (.known .em, -1)]).1 = [(.known .px, 1), (.known .em, -1)] := rfl
 
 /-! ### quantity preservation (exact arithmetic: any field of characteristic 0) -/
 
